@@ -56,7 +56,7 @@ theorem accepted_setter (resolve : List String → Nat) (types : Nat → Option 
       writeSpec p.base.internal raw v (offOf i fd.stride) fd.ranges < 2 ^ p.base.internal ∧
       (raw < 2 ^ p.base.exposed → writeSpec p.base.internal raw v (offOf i fd.stride) fd.ranges < 2 ^ p.base.exposed) := by
   obtain ⟨hB, hall⟩ := C09.expand_fields_ok resolve types d p h
-  obtain ⟨e, he, x, hev, hx, hsp, hex⟩ := eval_setterBody Γ chk p.base fd raw i fv v hB (hall fd hfd)
+  obtain ⟨e, he, x, hev, hx, hsp, hex, _⟩ := eval_setterBody Γ chk p.base fd raw i fv v hB (hall fd hfd)
     (C16.wide_of_disjoint p.base fd hB (hall fd hfd) hd) hraw hi harg
   have hxs := hsp hd
   subst hxs
